@@ -30,6 +30,9 @@ RULES = {
               "and parsed back with float()",
     "C04-A1": "attribute type table: from_string(quote(to_string(T))) == T and byte_size(T) is an int for every member T; "
               "Bool values are written in the integer form the reader parses",
+    "C04-C1": "every element kind a format can express is written under conditions (dimensionality, completion switches, "
+              "container emptiness, hard-edge flag) that cover every mesh state in which a load would not regenerate it: all "
+              "edges of a polyline or when edges are not completed from faces, at least the declared (hard) edges otherwise",
     "C04-G1": "geogram [ATTR] chunk: the header field written on line i is the one the reader takes from line i, the payload "
               "is dense (one group of `arity` values per element, element-major) and indexed with the same stride",
 }
@@ -87,7 +90,7 @@ def x1_dispatch(ctx):
         tabs[fname] = (fn, site, entries, keyn, node, b, fparam)
     (rfn, rsite, rtab, rkey, rnode, rb, rfile), (wfn, wsite, wtab, wkey, wnode, wb, wfile) = \
         tabs["read_by_extension"], tabs["write_by_extension"]
-    ctx.require_count("C04-X1 dispatch entries", min(len(rtab), len(wtab)), 6)
+    ff.floor(ctx, "C04-X1 dispatch entries", min(len(rtab), len(wtab)), 6, wsite)
     ctx.check(rkey == wkey, "C04-X1", wsite, f"extension key is `{wkey}` when writing but `{rkey}` when reading",
               "a file name accepted by save() must select the same format in load() (e.g. upper-case extensions)",
               note=f"both tables are looked up with {rkey}")
@@ -206,7 +209,7 @@ def a1_type_table(ctx):
     cls = repo.cls(ATTR, "_BaseAttribute.Type")
     fold = cc.Folder(cls)
     members = fold.members
-    ctx.require_count("C04-A1 attribute types", len(members), 5)
+    ff.floor(ctx, "C04-A1 attribute types", len(members), 3, ctx.site(ATTR, "_BaseAttribute.Type"))
     wfn, roles, n_lines, _hdr = ff.writer_type_fields(repo)
     wsite = ctx.site(GEO, wfn)
     if not roles or "to_string" not in roles or "byte_size" not in roles:
